@@ -181,6 +181,7 @@ pub(crate) fn run_scheduling_solver(
                 .free_resources
                 .get(ResourceId::new(r as u32));
             if free.is_max() {
+                c.clear();
                 continue;
             }
             if !c.is_empty() {
